@@ -235,7 +235,7 @@ def check_C12(tier, nproc=None):
             c.add(Job('vH_C12_int', [('bytes', 'd', n), ('int', kind)], weight=2 ** n))
         c.add(Job('vH_C12_bool', [('bytes', 'd', n)], weight=2 ** n))
         for wb in (False, True):
-            c.add(Job('vH_C12_string', [('bytes', 'd', n), ('bool', wb)], weight=3 ** n))
+            c.add(Job('vH_C12_string', [('bytes', 'd', n), ('bool', wb), ('cbytes', b'')], weight=3 ** n))
     for kind in range(6):
         nds = [9, 10] if kind in (2, 3) else [18, 19]
         if tier != 'quick':
@@ -243,8 +243,14 @@ def check_C12(tier, nproc=None):
         for nd in nds:
             for tail in (b'', b'null'):
                 c.add(Job('vH_C12_int', [('tmpl', 'd', [1, nd, tail]), ('int', kind)], weight=nd * 30))
-    c.bounds = {'N': N, 'prior_target': 'free 64-bit value / free bool / string of length 0 or 2 with free bytes'}
-    c.must_reach = ['C12.int-compared', 'C12.int-null', 'C12.bool-compared', 'C12.string-compared']
+    # two calls sharing target and scratch buffer: a successful decode (with an escape) then a failing one
+    for first in ([b'"', 1, b'\\', 1, 1, b'"'], [b'"', 2, b'"'], [b'"\\u00', ('hexd', 2), b'"']):
+        first = [((x[1], 'hex') if isinstance(x, tuple) and x[0] == 'hexd' else x) for x in first]
+        for second in ([b'"', 1, b'\\', 1], [b'"', 2], [1, 2]):
+            c.add(Job('vH_C12_string', [('tmpl', 'd', first), ('bool', True), ('tmpl', 's', second)], weight=3000))
+    c.bounds = {'N': N, 'prior_target': 'free 64-bit value / free bool / string of length 0 or 2 with free bytes',
+                'two_call_sequences': 'DecodeString twice with the same target and scratch buffer (templates "?\\??" / "??" / "\\u00HH" then a failing or null second input)'}
+    c.must_reach = ['C12.int-compared', 'C12.int-null', 'C12.bool-compared', 'C12.string-compared', 'C12.string-second-call-no-store']
     _std(c, ['DecodeFloat64 is covered by C04/C12 float harness only where registered'])
     c.outside = ['inputs longer than the bounds', 'DecodeFloat64 (see C04)']
     c.run_jobs(nproc)
@@ -467,14 +473,24 @@ def check_C04(tier, nproc=None):
     for e10 in range(-26, 42):
         for neg in (False, True):
             c.add(Job('vH_FP_exact', [('int', e10), ('bool', neg)], pkg=FP, weight=500, opts=ox))
+    # tier 4: the glue of ParseJSONFloatPrefix against the tiers' contracts
+    og = {'glue': True, 'bits_intrinsics': False, 'nsamples': 2}
+    G = [[(3, D), b'.', (2, D)], [b'-', (1, D), b'.', (4, D), b'e5'], [b'0.000', (18, D)], [(20, D)], [(19, D), b'.', (2, D), b'e-10'],
+         [(1, 'digit19'), (17, D), b'e300'], [(2, D), b'e-330'], [(21, D), b'e290'], [b'0.', (21, D)], [(18, D), b'.', (3, D)], [(1, D), b'e', b'23'], [b'-0.', (3, D), b'e-5']]
+    if tier != 'quick':
+        G += [[(22, D), b'e-30'], [(1, 'digit19'), b'.', (20, D), b'E+15'], [(16, D), b'e', b'37'], [(19, D), b'e-22'], [b'0.0', (19, D), b'e10'], [(23, D)]]
+    for t in G:
+        c.add(Job('vH_FP_glue', [('tmpl', 'd', t)], pkg=FP, weight=3000, opts=og))
     c.bounds = {'scanner_all_strings': N, 'scanner_templates': [_tmplstr(t) for t in T],
+                'glue_templates': [_tmplstr(t) for t in G],
                 'exact_path': 'atof64exact for every decimal exponent -26..41, both signs, every 64-bit mantissa',
                 'eisel_lemire': 'every one of the 696 table rows x every 64-bit mantissa with 0 leading zeros; leading-zero counts %s on %s rows; negative sign on the same rows' % (extra_clz, 'every 58th' if tier == 'quick' else 'all')}
-    c.must_reach = ['C04.scan-returned', 'C04.scan-ok', 'C04.el-returned', 'C04.el-ok', 'C04.exact-returned', 'C04.exact-ok']
+    c.must_reach = ['C04.scan-returned', 'C04.scan-ok', 'C04.el-returned', 'C04.el-ok', 'C04.exact-returned', 'C04.exact-ok', 'C04.glue-returned', 'C04.glue-ok']
     _std(c, ['R-ROUND (engine/gosym/fpspec.py): nearest binary64 with ties to even, as linear integer inequalities per exponent field; validated natively with math/big in replays',
              'math/bits.Mul64 and LeadingZeros64 are exact term-level intrinsics',
+             'tier 4: eiselLemire64 replaced by its contract (free ok; when ok the result is rnd(man*10^exp), tier 3); atof64exact runs for real in the exact-rational model; f2 == fUp implies every value between the two bounds rounds to f2 (monotonicity of rounding, meta-argument)',
              'tier 2: each IEEE-754 operation on exactly known operands returns rnd(exact result) (the standard\'s definition); comparisons with constants are translated to the un-rounded value by rounding midpoints; an intermediate is taken as exact only when the solver proves it is an integer <= 2^53 on the path, otherwise the double rounding is decided with R-ROUND'])
-    c.outside = ['tier 4 (order of the tiers in ParseJSONFloatPrefix, the truncated-mantissa re-check) is not encoded in this check',
+    c.outside = ['tier 4 uses the CONTRACT of the multi-precision fallback (returns the correctly rounded literal, overflow flag exact) as an assumption; literals with symbolic exponent digits are outside the glue templates',
                  'the multi-precision decimal fallback (decimal.set, floatBits, shifts): literals with more than 19 significant digits whose bounds disagree, exact halfway cases, exponents beyond +-347, subnormal and overflowing magnitudes are NOT established end to end',
                  'literals longer than the scanner bounds']
     c.run_jobs(nproc)
